@@ -4,7 +4,7 @@ import BearVerif.Extracted.Gen
 /-!
   Line-protocol driver for C08.
 
-  `(c08 aut KIND OBJOK CHK TABLE OPS)`  KIND = gen|coro|agen, OBJOK = true|false, CHK = any|int
+  `(c08 aut KIND OBJOK CHK TABLE OPS)`  KIND = gen|coro|agen, OBJOK = true|false, CHK = any|int|never
       -> `((plain AUT) (spec AUT) (wrapped AUT))`: the reachable automaton (over the operation alphabet OPS) of
          the undecorated object, of the specification object (`checkRet` / `violBody`) and of the decorated object.
          AUT = one entry per state (state 0 initial), each a list per operation of `(LOG RES NEXT)`.
@@ -110,7 +110,8 @@ def handleAut (args : List Sexp) : Option Sexp := do
   | [.atom kind, .atom objOk, .atom chk, tbl, ops] =>
     let objOk ← (match objOk with | "true" => some true | "false" => some false | _ => none)
     let chk : Val → Bool ← (match chk with
-      | "any" => some (fun _ => true) | "int" => some (fun (v : Val) => v.isSome) | _ => none)
+      | "any" => some (fun _ => true) | "int" => some (fun (v : Val) => v.isSome)
+      | "never" => some (fun _ => false) | _ => none)
     let t : Table ← (← tbl.items?).mapM rowOf
     let ops := (← (← ops.items?).mapM opOf).toArray
     match kind with
